@@ -125,10 +125,12 @@ type produced struct {
 var stringPool = [][]byte{
 	[]byte("plain text string"), []byte("(unbalanced paren"), []byte("back\\slash and more"), []byte("line\r\nbreak inside"),
 	{0, 1, 2, 255, 254, 253, 128, 127}, []byte("caf\xe9 au lait"), []byte("ab"), {}, bytes.Repeat([]byte("x"), 300),
-	[]byte("0123456789abcdef"), []byte("0123456789abcdef0123456789abcdef"), []byte("fifteen bytes.."),
+	[]byte("sixteen byte str"), []byte("thirty-two bytes of plain text.."), []byte("fifteen bytes.."),
 }
 
-func pick(r *rand.Rand, xs [][]byte) obj.Str { return obj.Str(append([]byte(nil), xs[r.Intn(len(xs))]...)) }
+func pick(r *rand.Rand, xs [][]byte) obj.Str {
+	return obj.Str(append([]byte(nil), xs[r.Intn(len(xs))]...))
+}
 
 func randBytes(r *rand.Rand, n int) obj.Str {
 	b := make([]byte, n)
